@@ -270,7 +270,7 @@ fn conditions(refsig: &CoreSig, abi: &Abi, func: &Function, combo: &Combo) -> Ve
     out
 }
 
-fn check_func(rep: &mut Report, c: &Ctxt, seed: u64, nsets: usize, only: Option<&serde_json::Value>) {
+fn check_func(rep: &mut Report, c: &Ctxt, seed: u64, nsets: usize, only: Option<&serde_json::Value>, miri: bool) {
     let resolve = c.ctx.resolve;
     let abi4 = Abi::new(resolve, 4);
     let ptys: Vec<Type> = c.func.params.iter().map(|p| p.ty).collect();
@@ -303,6 +303,9 @@ fn check_func(rep: &mut Report, c: &Ctxt, seed: u64, nsets: usize, only: Option<
                     }
                 }
                 let t = tier(v, ll, a);
+                if miri && t != Tier::Judged {
+                    continue; // panics are very slow under Miri
+                }
                 let kind = sig_kind(v);
                 let ref4 = abi4.signature(&ptys, c.func.result.as_ref(), kind);
                 let prog = match record_call(resolve, v, ll, c.func, a, policy) {
@@ -692,9 +695,11 @@ fn main() {
         }
         only = Some(r);
     } else {
-        units.push(limits_unit());
-        units.extend(boundary_units());
-        if tier_name != "miri" {
+        if tier_name == "miri" {
+            units.push(miri_unit());
+        } else {
+            units.push(limits_unit());
+            units.extend(boundary_units());
             units.push(dealloc_unit());
         }
         let mut stats = (0, 0);
@@ -727,7 +732,7 @@ fn main() {
                 continue;
             }
             let c = Ctxt { unit: &units[*ui], ctx: &ctxs[*ui], path: &f.path, func: &f.func };
-            let res = catch(std::panic::AssertUnwindSafe(|| check_func(&mut r, &c, seed, nsets, only.as_ref())));
+            let res = catch(std::panic::AssertUnwindSafe(|| check_func(&mut r, &c, seed, nsets, only.as_ref(), tier_name == "miri")));
             if let Err((msg, loc)) = res {
                 r.inconclusive(&format!("harness panicked at {}: {}", panic_site(&loc), shorten(&msg, 120)));
             }
